@@ -126,6 +126,7 @@ class MovingPeaks:
             self.minpeaks, npeaks, self.maxpeaks = npeaks
             self.number_severity = sc.get("number_severity")
 
+        self.random = random
         try:
             if len(pfunc) == npeaks:
                 self.peaks_function = list(pfunc)
@@ -136,7 +137,6 @@ class MovingPeaks:
             self.peaks_function = list(itertools.repeat(pfunc, npeaks))
             self.pfunc_pool = (pfunc,)
 
-        self.random = random
         self.basis_function = sc.get("bfunc")
 
         self.min_coord = sc.get("min_coord")
